@@ -14,6 +14,7 @@ import GocoinV.Proofs.C04Cost
 import GocoinV.Proofs.C04Wf
 import GocoinV.Proofs.C04Equiv
 import GocoinV.Proofs.C04Config
+import GocoinV.Proofs.C04Round4
 namespace GocoinV.Props.C04
 open GocoinV GocoinV.Connect GocoinV.Proofs.C04
 open GocoinV.Spec.Connect (connectBlock connectTxs addOuts absList absGet isOk failsWith subsidy seqLockOk Coin)
@@ -534,5 +535,125 @@ theorem compressed_interleaving_counterexample :
     ∧ (Scratch.run (fun v : Nat => v) 0 [some 100000000] [some 5000000000] [0] [.a1, .b1, .a2, .b2]).outA = [(0, 5000000000)]
     ∧ Scratch.expected (fun v : Nat => v) [some 100000000] 0 = [(0, 100000000)] := by
   refine ⟨by decide, by decide, by decide⟩
+
+/-! ### the client's own wiring: the REAL pool hook, the record allocator, the road of the block object
+
+  Added after the fourth round of seeded changes. Again one structural fact of the source per mechanism, regenerated
+  from /repo on every run (go/cmd/gen_c04 → Gen/C04Facts.lean: `hookComparesWitness`, `recordReleasedAfterLastRead`,
+  `txListMarksCoinbaseHashed/Plain`); the harness (realpool.go, alloc.go, entry.go) drives the real code in the same
+  configurations and searches for a failing input. -/
+
+/-- **The real pool hook is honest.** `cacheChecker` = client/txpool's txChecker (Model/ConnectCache.lean): look the
+    txid up, answer true only for a pooled, non-local entry whose WITNESS hash equals the transaction's.  If the pool
+    verified what it holds (`hcache`: every non-local pooled entry has a true script verdict — processTx for untrusted
+    sources; the verdict is a property of the whole transaction, identified by its wtxid) and the verdict of a wtxid is the
+    verdict of the block's transaction with that wtxid (`hverd`), then the hook vouches only for transactions all of
+    whose scripts verify: exactly the hypothesis `hhonest` of `connect_sound_pool_hook`.  Needs
+    `Gen.C04Facts.hookComparesWitness`: the txid does not cover the witness. -/
+theorem real_pool_hook_is_honest (cache : List CacheEntry) (wtxidOf : Tx → Bytes) (verdict : Bytes → Bool) (b : Block)
+    (hcache : ∀ e ∈ cache, e.state = .toSend → e.localTx = false → verdict e.wtxid = true)
+    (hverd : ∀ tx ∈ b.txs.tail, verdict (wtxidOf tx) = true → ∀ i ∈ tx.ins, i.scriptOk = true) :
+    ∀ tx ∈ b.txs.tail, (cacheChecker HookCfg.current cache wtxidOf).says tx = true → ∀ i ∈ tx.ins, i.scriptOk = true := by
+  have hfact : HookCfg.current = ⟨true⟩ := by decide
+  intro tx htx hs
+  rw [hfact] at hs
+  simp only [cacheChecker, TxChecker.says] at hs
+  obtain ⟨e, hm, _, hst, hl, hw⟩ := cacheSays_true cache tx.txid (wtxidOf tx) hs
+  apply hverd tx htx
+  rw [← hw]
+  exact hcache e hm hst hl
+
+/-- non-vacuity: the pool holds the transaction of `W.blockOk` under the witness hash the block carries; the hook vouches for it -/
+example : (∀ e ∈ [(⟨W.idOf 1, [0x77], .toSend, false⟩ : CacheEntry)], e.state = .toSend → e.localTx = false → (fun w : Bytes => w == [0x77]) e.wtxid = true)
+    ∧ (∀ tx ∈ W.blockOk.txs.tail, (fun w : Bytes => w == [0x77]) ((fun _ : Tx => ([0x77] : Bytes)) tx) = true → ∀ i ∈ tx.ins, i.scriptOk = true)
+    ∧ (cacheChecker HookCfg.current [⟨W.idOf 1, [0x77], .toSend, false⟩] (fun _ => [0x77])).says (W.spend 1 1 W.h1 0xffffffff [⟨900, [0x51]⟩]) = true := by
+  refine ⟨by decide, by decide, by decide⟩
+
+/-- Hence, with client/txpool as the pool, the conclusion of `connect_sound` holds for every block the node connects:
+    `connect_sound_pool_hook` with its honesty hypothesis discharged by `real_pool_hook_is_honest`. -/
+theorem connect_sound_real_pool (cache : List CacheEntry) (wtxidOf : Tx → Bytes) (verdict : Bytes → Bool)
+    (db : DB) (b : Block) (db' : DB) (so : Nat) (mtpOf : Nat → Nat)
+    (hcache : ∀ e ∈ cache, e.state = .toSend → e.localTx = false → verdict e.wtxid = true)
+    (hverd : ∀ tx ∈ b.txs.tail, verdict (wtxidOf tx) = true → ∀ i ∈ tx.ins, i.scriptOk = true)
+    (hwf : WF db)
+    (hinj : ((b.txs.map (·.txid)).map key8).Nodup)
+    (hbip30 : ∀ tx ∈ b.txs, ∀ kr ∈ db, key8 kr.2.txid ≠ key8 tx.txid)
+    (hseq : b.csv = true → ∀ tx ∈ b.txs, 2 ≤ tx.version → ∀ i ∈ tx.ins, ∀ c : Coin,
+        (absGet mtpOf db i.prev = some c ∨ (absGet mtpOf db i.prev = none ∧ c.height = b.height ∧ c.mtpPrev = b.mtp)) → seqLockOk b.height b.mtp i c = true)
+    (hret : ∀ tx ∈ b.txs, txCountsAgree tx = true)
+    (hheights : ∀ kr ∈ db, kr.2.height ≤ b.height) (hb : b.height < 2 ^ 32)
+    (hmtp : mtpOf b.height = b.mtp)
+    (hsize : ∀ tx ∈ b.txs, tx.noWitSize * 4 < 2 ^ 32)
+    (hbytes : blockScriptBytes b ≤ 4000000)
+    (h : connectT Cfg.current (cacheChecker HookCfg.current cache wtxidOf) db b = .ok (db', so)) :
+    ∃ u', connectBlock (absList mtpOf db) b = .ok u' ∧ (∀ op, aGet u' op = absGet mtpOf db' op)
+      ∧ ∃ cb rest r, b.txs = cb :: rest
+          ∧ connectTxs b rest ⟨addOuts (absList mtpOf db) cb.txid b true cb.outs 0, 0, 0⟩ = .ok r
+          ∧ so = 4 * cbScriptSigOps cb + 4 * cbOutputSigOps cb + r.sigops
+          ∧ so ≤ 80000 :=
+  connect_sound_pool_hook _ db b db' so mtpOf (real_pool_hook_is_honest cache wtxidOf verdict b hcache hverd)
+    hwf hinj hbip30 hseq hret hheights hb hmtp hsize hbytes h
+
+/-- Why the witness hash must be compared: the pool once verified T (wtxid w) and then replaced it; a block carries T'
+    — the same txid under another witness w' whose script verdict is FALSE. A hook that answers on the txid for entries
+    "whose scripts were verified once" vouches for T'; the one the source has now does not — neither for a replaced
+    entry nor for a pooled one with another witness hash. -/
+theorem pool_cache_must_compare_witness_counterexample :
+    let cache : List CacheEntry := [⟨W.idOf 1, [0x77], .replaced, false⟩]
+    let pooled : List CacheEntry := [⟨W.idOf 1, [0x77], .toSend, false⟩]
+    let verdict : Bytes → Bool := fun w => w == [0x77]
+    cacheSays ⟨false⟩ cache (W.idOf 1) [0x78] = true ∧ verdict [0x78] = false
+    ∧ cacheSays HookCfg.current cache (W.idOf 1) [0x78] = false
+    ∧ cacheSays HookCfg.current pooled (W.idOf 1) [0x78] = false
+    ∧ cacheSays HookCfg.current pooled (W.idOf 1) [0x77] = true := by
+  refine ⟨by decide, by decide, by decide, by decide, by decide⟩
+
+/-- **Ownership of record bytes.** UndoBlockTxs merges the outputs the set still holds into the record of the undo
+    file through a VIEW of the stored record (scripts are slices of its bytes) and serializes the result; with
+    `Gen.C04Facts.recordReleasedAfterLastRead` the stored record is released only after that, so on EVERY allocator —
+    `junk` = whatever released memory reads as — the undo puts back exactly what the abstract `undoBlockTxs` does. -/
+theorem undo_merge_reads_live_records (junk : Junk) (db : DB) (dir : UndoDir) (h : Nat) (txids : List Bytes) :
+    undoBlockTxsOwn UndoCfg.current OwnCfg.current junk db dir h txids = undoBlockTxs UndoCfg.current db dir h txids := by
+  have hfact : OwnCfg.current = ⟨true⟩ := by decide
+  unfold undoBlockTxsOwn undoBlockTxs
+  rw [hfact]
+  cases readUndo UndoCfg.current dir h with
+  | none => rfl
+  | some recs => simp only [foldl_addBackOwn_live]
+
+/-- Why the release must come last: the set holds output 1 of a transaction (script 0x51), the undone block had spent its
+    output 0; release the stored record BEFORE the merged one is serialized and an allocator that reuses the slot
+    (`junk`) leaves output 1 in the set with another script — a valid spend is refused, a spend satisfying the garbage
+    would be connected. -/
+theorem undo_release_before_serialize_counterexample :
+    let db : DB := [(key8 W.h1, { txid := W.h1, height := 150, coinbase := false, outs := [none, some ⟨1000, [0x51]⟩] })]
+    let back : Rec := { txid := W.h1, height := 150, coinbase := false, outs := [some ⟨500, [0x52]⟩, none] }
+    let junk : Junk := fun _ => [0xdb]
+    (unspentGet Cfg.current (addBackOwn ⟨false⟩ junk db back) ⟨W.h1, 1⟩).map (·.script) = some [0xdb]
+    ∧ (unspentGet Cfg.current (addBack db back) ⟨W.h1, 1⟩).map (·.script) = some [0x51]
+    ∧ (unspentGet Cfg.current (addBackOwn OwnCfg.current junk db back) ⟨W.h1, 1⟩).map (·.script) = some [0x51] := by
+  refine ⟨by decide, by decide, by decide⟩
+
+/-- **The road of the block object.** Whichever call built the transaction list of the object that reaches
+    Chain.CommitBlock — BuildTxList (CheckBlock, re-organisations) or BuildTxListExt(false) (a block parked in the
+    client's disk cache) — the outputs of transaction number i carry WasCoinbase exactly when i = 0, so the record
+    commitTxs files for the coinbase has Coinbase = true and the model's "first transaction of the block" is what the
+    code copies.  Needs `Gen.C04Facts.txListMarksCoinbaseHashed` and `…Plain`. -/
+theorem block_object_paths_mark_coinbase (how : ListBuild) (height i : Nat) (txid : Bytes) (outs : List (Option TxOut)) :
+    wasCoinbase ListCfg.current how i = (i == 0)
+    ∧ (recOfListed ListCfg.current how height i txid outs).coinbase = (i == 0) := by
+  have hfact : ListCfg.current = ⟨true, true⟩ := by decide
+  rw [hfact]
+  cases how <;> simp [wasCoinbase, recOfListed]
+
+/-- Why both roads must mark: a list built without the mark files the coinbase of block 150 as an ordinary record, and
+    the maturity test of commitTxs lets the next block spend it (depth 1); with the mark the same spend is refused as
+    immature. -/
+theorem unmarked_coinbase_spendable_at_once_counterexample :
+    let recOf (cfg : ListCfg) : Rec := recOfListed cfg .plain 150 0 W.h1 [some ⟨5000000000, [0x51]⟩]
+    let found (cfg : ListCfg) : Option Found := unspentGet Cfg.current [(key8 W.h1, recOf cfg)] ⟨W.h1, 0⟩
+    (found ⟨true, false⟩).map (fun t => isOk (fromDb W.blockOk (St.init W.blockOk) W.h1 0 t)) = some true
+    ∧ (found ListCfg.current).map (fun t => failsWith (fromDb W.blockOk (St.init W.blockOk) W.h1 0 t) Err.immature) = some true := by
+  refine ⟨by decide, by decide⟩
 
 end GocoinV.Props.C04
